@@ -39,7 +39,10 @@ RULE = (
     "configuration (normalised inputs, database, Jacobian storage, integer rounding, sparse support, user / "
     "finite_differences / centered_differences / complex_step derivatives), a pool of 1-4 points and a history of 1-15 "
     "requests (function.evaluate, function.jac, evaluate_functions with normalised or physical vector, outputs and/or "
-    "Jacobians, all functions or a subset).  After every request the results, the call logs of the user's callables "
+    "Jacobians, all functions or a subset); one history in three continues with a second phase on the same database "
+    "(reset(database=False, preprocessing=True) or a new problem created with database=<the database>, then "
+    "preprocess_functions with redrawn normalisation / Jacobian storage / sparse support, and 1-8 more requests).  "
+    "After every request the results, the call logs of the user's callables "
     "and the database are compared with a numpy reference.  Non-trivial = the history repeats a (point, function) "
     "pair with the database on, contains a Jacobian request, and the space has a component really rescaled by the "
     "normalisation (finite bounds, lb!=ub, lb!=0 or ub-lb!=1) with normalised inputs; distinct = structural hash of "
@@ -66,6 +69,11 @@ ASSUMPTIONS = [
     "ub-lb and 1/(ub-lb)); approximated derivatives: analytic truncation bound of one-sided differences "
     "(h/2 * max|f''|) plus 16*eps*|f|/h round-off, times 4; linear functions normalised by MDOLinearFunction.normalize "
     "are compared to 64 ulp of the sum of the absolute terms",
+    "a Jacobian found in the database is served from it whatever store_jacobian is (the option only controls storing: "
+    "ProblemFunction looks the database up unconditionally); a record served in another phase is compared with the "
+    "physical-space record made by the first phase (zero on lb==ub components when made with normalised inputs) "
+    "mapped to the coordinates of the serving phase; round_ints, the differentiation method and use_database are "
+    "the same in both phases",
     "call-log assertions are not applied to MDOLinearFunction on the normalize() fast path (the problem evaluates an "
     "internal normalised copy, the user's object is never called)",
 ]
@@ -110,7 +118,18 @@ def histories(draw):
         "all": st.booleans(),
     })
     requests = draw(st.lists(request, min_size=1, max_size=15))
-    return {"space": space, "functions": functions, "config": config, "points": points, "requests": requests}
+    second = None
+    if draw(st.integers(0, 2)) == 0:
+        # second phase on the same database: the functions are pre-processed again with other settings, either
+        # after reset(database=False, preprocessing=True) or in a new problem created with database=<the database>
+        second = {
+            "mode": draw(st.sampled_from(["reset", "new_problem"])),
+            "norm": draw(st.sampled_from([True, True, False])),
+            "store_jac": draw(st.integers(0, 2)) == 0,
+            "sparse": draw(st.booleans()),
+            "requests": draw(st.lists(request, min_size=1, max_size=8)),
+        }
+    return {"space": space, "functions": functions, "config": config, "points": points, "requests": requests, "second": second}
 
 
 # --------------------------------------------------------------------------- helpers
@@ -131,7 +150,7 @@ class Model:
 
     def __init__(self, p, ctx):
         self.ctx = ctx
-        self.cfg = p["config"]
+        self.cfg = dict(p["config"])  # a copy: the second phase updates it
         self.space = SpaceModel(p["space"])
         self.polys = [PolyFunction(f["spec"], self.space.dim) for f in p["functions"]]
         self.round_effective = bool(self.cfg["round_ints"] and self.space.has_integer)
@@ -219,41 +238,51 @@ def _case_history(p, ctx):
     n_fn = len(polys)
 
     # ----- known findings: exclusion by construction
+    second = p.get("second")
     allow_frac = space.has_integer
-    if model.round_effective and not cfg["norm"] and cfg["use_db"] and ctx.known(K_ROUND_KEY, count=False):
-        used = {r["pt"] % len(p["points"]) for r in p["requests"]}
+    physical_phase = not cfg["norm"] or (second is not None and not second["norm"])
+    if model.round_effective and physical_phase and cfg["use_db"] and ctx.known(K_ROUND_KEY, count=False):
+        used = {r["pt"] % len(p["points"]) for r in p["requests"] + (second["requests"] if second else [])}
         if any(not np.array_equal(space.realise(p["points"][i], True)[1], space.realise(p["points"][i], False)[1]) for i in used):
             ctx.known(K_ROUND_KEY)  # counted: the non-integral integer coordinates of this case are made integral
         allow_frac = False
     pts = [space.realise(pt, allow_frac) for pt in p["points"]]
 
     # ----- the real problem
-    ds = build_design_space(p["space"])
-    problem = OptimizationProblem(ds, differentiation_method=cfg["diff"], differentiation_step=FD_STEP)
-    if cfg["diff"] == "complex_step":
-        # what BaseOptimizationLibrary does before using complex_step (the cast only acts through the current values)
-        ds.initialize_missing_current_values()
-        ds.to_complex()
-    for f, poly in zip(p["functions"], polys):
-        g = poly.to_gemseo()
-        if f["role"] == "obj":
-            problem.objective = g
-        elif f["role"] == "obs":
-            problem.add_observable(g, new_iter=False)
-        else:
-            problem.add_constraint(g, constraint_type=f["role"])
-    problem.preprocess_functions(
-        is_function_input_normalized=cfg["norm"], use_database=cfg["use_db"], round_ints=cfg["round_ints"],
-        support_sparse_jacobian=cfg["sparse"], store_jacobian=cfg["store_jac"],
-    )
-    by_name = {fn.name: fn for fn in [problem.objective, *problem.constraints, *problem.observables]}
-    ctx.check(set(by_name) == {q.name for q in polys}, "setup", f"function names {sorted(by_name)} differ from the generated ones")
-    fns = [by_name[q.name] for q in polys]
-    for fn in fns:
-        ctx.check(bool(fn.expects_normalized_inputs) == bool(cfg["norm"]), "setup",
-                  f"{fn.name}.expects_normalized_inputs={fn.expects_normalized_inputs} after preprocess_functions(is_function_input_normalized={cfg['norm']})")
-    for q in polys:
-        q.log.clear()  # MDOLinearFunction.normalize evaluates the function once while preprocessing
+    S = {"problem": None, "fns": None}
+
+    def preprocess(problem):
+        problem.preprocess_functions(
+            is_function_input_normalized=cfg["norm"], use_database=cfg["use_db"], round_ints=cfg["round_ints"],
+            support_sparse_jacobian=cfg["sparse"], store_jacobian=cfg["store_jac"],
+        )
+        by_name = {fn.name: fn for fn in [problem.objective, *problem.constraints, *problem.observables]}
+        ctx.check(set(by_name) == {q.name for q in polys}, "setup", f"function names {sorted(by_name)} differ from the generated ones")
+        S["problem"], S["fns"] = problem, [by_name[q.name] for q in polys]
+        for fn in S["fns"]:
+            ctx.check(bool(fn.expects_normalized_inputs) == bool(cfg["norm"]), "setup",
+                      f"{fn.name}.expects_normalized_inputs={fn.expects_normalized_inputs} after preprocess_functions(is_function_input_normalized={cfg['norm']})")
+        for q in polys:
+            q.log.clear()  # MDOLinearFunction.normalize evaluates the function once while preprocessing
+
+    def new_problem(database=None):
+        ds = build_design_space(p["space"])
+        problem = OptimizationProblem(ds, database=database, differentiation_method=cfg["diff"], differentiation_step=FD_STEP)
+        if cfg["diff"] == "complex_step":
+            # what BaseOptimizationLibrary does before using complex_step (the cast only acts through the current values)
+            ds.initialize_missing_current_values()
+            ds.to_complex()
+        for f, poly in zip(p["functions"], polys):
+            g = poly.to_gemseo()
+            if f["role"] == "obj":
+                problem.objective = g
+            elif f["role"] == "obs":
+                problem.add_observable(g, new_iter=False)
+            else:
+                problem.add_constraint(g, constraint_type=f["role"])
+        preprocess(problem)
+
+    new_problem()
 
     odd_dtype = (space.common_dtype_kind() == "i") or cfg["diff"] == "complex_step"
     stats = {"hits": 0, "jac_requests": 0, "repeat": False, "jac_before_value": False, "skipped": 0}
@@ -316,18 +345,21 @@ def _case_history(p, ctx):
         arr = np.asarray(got)
         ctx.check(arr.size == poly.dim and arr.ndim <= 1, "faithful_value", f"{poly.name}: returned value has shape {arr.shape}, dim is {poly.dim}")
         arr = arr.reshape(poly.dim)
-        ctx.check(not np.any(arr.imag) and _close(arr.real, exp, model.value_tol(poly, phys)), "faithful_value",
-                  f"{poly.name}: returned {arr.tolist()!r}, the user's function at the physical point {phys.tolist()!r} gives {exp.tolist()!r}",
-                  fn_input=fn_input)
         rec = model.find(phys) if cfg["use_db"] else None
         hit = rec is not None and poly.name in rec["entries"]
+        tol = model.value_tol(poly, phys)
+        if hit:  # served as recorded, possibly by a phase that computed it through MDOLinearFunction.normalize
+            tol = max(tol, rec["entries"][poly.name]["tol"])
+        ctx.check(not np.any(arr.imag) and _close(arr.real, exp, tol), "faithful_value",
+                  f"{poly.name}: returned {arr.tolist()!r}, the user's function at the physical point {phys.tolist()!r} gives {exp.tolist()!r}",
+                  fn_input=fn_input)
         check_calls(poly, "f", phys, new_calls, hit)
         if hit:
             stats["hits"] += 1
-            first = rec["entries"][poly.name]
+            first = rec["entries"][poly.name]["value"]
             ctx.check(np.array_equal(arr, first), "memoisation", f"{poly.name}: served {arr.tolist()!r} from the database, the first evaluation returned {first.tolist()!r}")
         elif cfg["use_db"]:
-            model.record(phys)["entries"][poly.name] = arr.copy()
+            model.record(phys)["entries"][poly.name] = {"value": arr.copy(), "tol": tol}
         pair = (poly.name, phys.tobytes())
         stats["repeat"] |= cfg["use_db"] and pair in seen_pairs
         seen_pairs.add(pair)
@@ -345,6 +377,15 @@ def _case_history(p, ctx):
             exp_ret[:, space.equal] = 0.0
             exp_rec[:, space.equal] = 0.0
         tol_ret, tol_rec = model.jac_tols(poly, phys, exp_ret, exp_rec)
+        rec = model.find(phys) if cfg["use_db"] else None
+        hit = rec is not None and ("@" + poly.name) in rec["entries"]
+        if hit:
+            # served from the record, whichever phase made it: physical-space record (zero on lb==ub components when
+            # it was made with normalised inputs) mapped to the coordinates of the current phase
+            entry = rec["entries"]["@" + poly.name]
+            scale_now = space.scale() if cfg["norm"] else np.ones(dim)
+            exp_ret = entry["exp"] * scale_now
+            tol_ret = np.maximum(entry["tol"] * scale_now, 16 * EPS * np.abs(exp_ret))
         cols = compare_columns(poly, exp_ret)
         dense = as_dense(got)
         ctx.check(dense.size == poly.dim * dim, "jacobian_coordinates", f"{poly.name}: returned Jacobian has shape {dense.shape}, expected {poly.dim}x{dim}")
@@ -352,20 +393,22 @@ def _case_history(p, ctx):
         bad = ~(np.abs(dense - exp_ret) <= tol_ret) & cols
         ctx.check(not bad.any() and not np.any(dense.imag), "jacobian_coordinates",
                   f"{poly.name}: returned Jacobian {dense.tolist()!r} w.r.t. the {'normalised' if cfg['norm'] else 'physical'} coordinates, "
-                  f"expected {exp_ret.tolist()!r} at the physical point {phys.tolist()!r} (scale {space.scale().tolist() if cfg['norm'] else 1})",
+                  f"expected {exp_ret.tolist()!r} at the physical point {phys.tolist()!r} (scale {space.scale().tolist() if cfg['norm'] else 1})"
+                  + (" [served from the database]" if hit else ""),
                   components=[space.comp_names[c] for c in np.nonzero(bad.any(axis=0))[0]])
-        rec = model.find(phys) if cfg["use_db"] else None
-        hit = rec is not None and ("@" + poly.name) in rec["entries"]
         check_calls(poly, "j", phys, new_calls, hit)
         if hit:
             stats["hits"] += 1
-            first = rec["entries"]["@" + poly.name]["returned"]
-            tol_same = 0.0 if not cfg["norm"] else 16 * EPS * np.abs(first)
-            same = (np.abs(dense - first) <= tol_same) | ~cols
-            ctx.check(bool(same.all()), "memoisation",
-                      f"{poly.name}: Jacobian served from the database {dense.tolist()!r} differs from the first result {first.tolist()!r}")
+            if not cfg["store_jac"]:
+                stats["hit_with_storage_off"] = True
+            if entry["norm"] == bool(cfg["norm"]):
+                first = entry["returned"]
+                tol_same = 0.0 if not cfg["norm"] else 16 * EPS * np.abs(first)
+                same = (np.abs(dense - first) <= tol_same) | ~cols
+                ctx.check(bool(same.all()), "memoisation",
+                          f"{poly.name}: Jacobian served from the database {dense.tolist()!r} differs from the first result {first.tolist()!r}")
         elif cfg["use_db"] and cfg["store_jac"]:
-            model.record(phys)["entries"]["@" + poly.name] = {"returned": dense.copy(), "exp": exp_rec, "tol": tol_rec, "cols": cols}
+            model.record(phys)["entries"]["@" + poly.name] = {"returned": dense.copy(), "exp": exp_rec, "tol": tol_rec, "cols": cols, "norm": bool(cfg["norm"])}
         pair = (poly.name, phys.tobytes())
         if ("value", *pair) not in seen_pairs:
             stats["jac_before_value"] = True
@@ -373,7 +416,7 @@ def _case_history(p, ctx):
         seen_pairs.add(("jac", *pair))
 
     def check_database():
-        items = list(problem.database.items())
+        items = list(S["problem"].database.items())
         if not cfg["use_db"]:
             ctx.check(not items, "database", f"use_database=False but the database holds {len(items)} entries")
             return
@@ -400,12 +443,12 @@ def _case_history(p, ctx):
                               f"{name} recorded at {rec['key'].tolist()!r} is {dense.tolist()!r}, the physical-space Jacobian is {exp['exp'].tolist()!r}",
                               components=[space.comp_names[c] for c in np.nonzero(bad.any(axis=0))[0]])
                 else:
-                    arr = np.asarray(got)
-                    ctx.check(arr.size == exp.size and np.array_equal(arr.reshape(exp.shape), exp), "database_value",
-                              f"{name} recorded at {rec['key'].tolist()!r} is {arr.tolist()!r}, the value returned was {exp.tolist()!r}")
+                    arr, val = np.asarray(got), exp["value"]
+                    ctx.check(arr.size == val.size and np.array_equal(arr.reshape(val.shape), val), "database_value",
+                              f"{name} recorded at {rec['key'].tolist()!r} is {arr.tolist()!r}, the value returned was {val.tolist()!r}")
 
     # ----- the history
-    for r in p["requests"]:
+    def run_request(r):
         xn, x = pts[r["pt"] % len(pts)]
         if r["op"] in ("evaluate", "jac"):
             i = r["fn"] % n_fn
@@ -413,14 +456,14 @@ def _case_history(p, ctx):
             fn_input = (xn if cfg["norm"] else x).copy()
             if excluded(polys[i], kind, fn_input):
                 stats["skipped"] += 1
-                continue
+                return
             before = len(polys[i].log)
             others = [len(q.log) for q in polys]
             if kind == "f":
-                got = fns[i].evaluate(fn_input.copy())
+                got = S["fns"][i].evaluate(fn_input.copy())
                 after_value(i, fn_input, got, polys[i].log[before:])
             else:
-                got = fns[i].jac(fn_input.copy())
+                got = S["fns"][i].jac(fn_input.copy())
                 after_jac(i, fn_input, got, polys[i].log[before:])
             for j, q in enumerate(polys):
                 ctx.check(j == i or len(q.log) == others[j], "calls", f"a request on {polys[i].name} called the callables of {q.name}")
@@ -434,10 +477,10 @@ def _case_history(p, ctx):
             fn_input = model.fn_input_from_vector(vector, as_norm)
             if (want_jac and any(excluded(polys[i], "j", fn_input) for i in sel)) or (want_out and any(excluded(polys[i], "f", fn_input) for i in sel)):
                 stats["skipped"] += 1
-                continue
-            fn_list = () if r["all"] else [fns[i] for i in sel]
+                return
+            fn_list = () if r["all"] else [S["fns"][i] for i in sel]
             before = [len(q.log) for q in polys]
-            outs, jacs = problem.evaluate_functions(
+            outs, jacs = S["problem"].evaluate_functions(
                 vector.copy(), design_vector_is_normalized=as_norm,
                 output_functions=fn_list if want_out else None, jacobian_functions=fn_list if want_jac else None,
             )
@@ -462,8 +505,31 @@ def _case_history(p, ctx):
                 ctx.cls("evaluate_functions_jacobian_in_other_coordinates_than_the_vector")
         check_database()
 
+    for r in p["requests"]:
+        run_request(r)
+
+    if second is not None:
+        first_cfg = dict(cfg)
+        # the model follows; points handled as int64 / complex128 keep their coordinates (byte-hashed keys, see ASSUMPTIONS)
+        cfg.update(norm=cfg["norm"] if odd_dtype else second["norm"], store_jac=second["store_jac"], sparse=second["sparse"])
+        if second["mode"] == "reset":
+            S["problem"].reset(database=False, design_space=False, preprocessing=True)
+            preprocess(S["problem"])
+        else:
+            new_problem(database=S["problem"].database)
+        check_database()  # pre-processing again must leave the records untouched
+        for r in second["requests"]:
+            run_request(r)
+        ctx.cls("second_phase_" + second["mode"])
+        if first_cfg["store_jac"] and not cfg["store_jac"] and cfg["use_db"]:
+            ctx.cls("second_phase_switches_jacobian_storage_off")
+        if first_cfg["norm"] != cfg["norm"]:
+            ctx.cls("second_phase_switches_coordinates")
+        if stats.get("hit_with_storage_off"):
+            ctx.cls("jacobian_served_from_database_with_storage_off")
+
     # ----- classification
-    rescaled = bool(cfg["norm"] and space.rescaled.any())
+    rescaled = bool((cfg["norm"] or p["config"]["norm"]) and space.rescaled.any())  # in either phase
     if stats["repeat"] and stats["jac_requests"] and rescaled:
         ctx.nontriv(p)
         ctx.cls("nontrivial")
@@ -496,7 +562,7 @@ def _case_history(p, ctx):
     if space.common_dtype_kind() == "i":
         ctx.cls("all_integer_space_int64_points")
     ctx.extra["max_database_hits_in_a_history"] = max(ctx.extra.get("max_database_hits_in_a_history", 0), stats["hits"])
-    ctx.sample({"config": cfg, "space": p["space"], "functions": [f["spec"]["kind"] + ":" + f["role"] for f in p["functions"]],
+    ctx.sample({"config": p["config"], "second": {k: v for k, v in second.items() if k != "requests"} if second else None, "space": p["space"], "functions": [f["spec"]["kind"] + ":" + f["role"] for f in p["functions"]],
                 "n_points": len(p["points"]), "requests": [[r["op"], r["fn"], r["pt"]] for r in p["requests"]]})
 
 
